@@ -32,6 +32,14 @@ add('C27', 'model_checking',
     'TLA+ spec Jobs.tla model-checked by TLC (ID stability as an action property, reuse rule, lookups); state-graph paths replayed on a real lang.NewJobs() table with lookups and listing compared after each step',
     'All histories of add/terminate/garbage-collect/Get/GetLatest over up to 5 jobs are explored by TLC; each reachable state is reproduced on the real table and the listing (job ID -> process) and every lookup result are compared with the specification after every step.',
     'sequential object (every operation is one mutex region); processes are bare lang.Process values whose terminated flag the harness sets', 'DESIGN §6 C27')
+add('C04', 'model_checking',
+    'TLA+ spec RunModes.tla: TLC checks the transcribed runModeNormal loop against the declarative chain rule for every program up to the bound and exports the case table; every program is executed by the real interpreter and compared with the table',
+    'All programs of <=4 (thorough <=5) commands over exit numbers {0,1,3} and the operators ; newline && || | are enumerated by TLC; operational scheduler model = declarative rule is an invariant; each program is rendered to murex source (top level and function body) and run in-process; commands that ran (stdout order, stderr set) and the exit number must equal the table.',
+    'commands are exit-code functions ignoring stdin; rows whose reading is ambiguous in the property (conditional operator on the head of a longer pipeline) are executed but not judged', 'DESIGN §6 C04')
+add('C05', 'model_checking',
+    'TLA+ spec RunModes.tla: TLC checks the transcribed runModeTry/runModeTryPipe loops against the declarative pipeline rule for every block up to the bound and exports the case table; every block is executed by the real interpreter (try{}, trypipe{}, runmode ... function) and compared',
+    'All blocks of <=4 (thorough <=5) commands x {try, trypipe} are enumerated by TLC with the invariant operational = declarative; each is run as a `try`/`trypipe` block and as a function with a `runmode` directive; commands that ran and the exit number must equal the table.',
+    'as C04; tryerr variants excluded (not in the property)', 'DESIGN §6 C05')
 
 
 def main():
